@@ -194,10 +194,10 @@ Fixpoint spec_run (r : rlog) (ops : list wop) : rlog :=
 Fixpoint history_wf (r : rlog) (ops : list wop) : Prop :=
   match ops with
   | [] => True
-  | o :: tl => match o with WWrite items => batch_wf r items | _ => True end /\ history_wf (spec_step r o) tl
+  | o :: tl => match o with WWrite items => batch_wf r items | WUnit _ => False | _ => True end /\ history_wf (spec_step r o) tl
   end.
 
-Lemma step_refines w r o w' : Inv w r -> match o with WWrite items => batch_wf r items | _ => True end ->
+Lemma step_refines w r o w' : Inv w r -> match o with WWrite items => batch_wf r items | WUnit _ => False | _ => True end ->
   wstep w o = Some w' -> Inv w' (spec_step r o).
 Proof.
   intros HI Hwf Hs. destruct o; cbn in Hs.
@@ -207,6 +207,7 @@ Proof.
   - inversion Hs; subst. exact HI.
   - inversion Hs; subst. apply (clear_refines w r); auto.
   - inversion Hs; subst. now apply (reset_refines w r).
+  - contradiction.
 Qed.
 
 Theorem run_refines ops : forall w r w',
@@ -353,6 +354,7 @@ Proof.
   - inversion Hs; subst. exact HB.
   - inversion Hs; subst. intros e [].
   - inversion Hs; subst. intros e [].
+  - inversion Hs; subst. destruct u; exact HB.
 Qed.
 
 Lemma run_blkinv ops : forall w r w', BlkInv w r -> wrun w ops = Some w' -> BlkInv w' (spec_run r ops).
@@ -480,7 +482,7 @@ Qed.
 
 Lemma step_inv_map w o w' h : wstep w o = Some w' -> w_inv w' h = op_latest o h (w_inv w h).
 Proof.
-  destruct o; intros H; try (cbn in H; inversion H; subst; reflexivity).
+  destruct o; intros H; try (cbn in H; inversion H; subst; reflexivity); try (cbn in H; inversion H; subst; destruct u; reflexivity).
   destruct items as [|it0 tl]; [discriminate|]. unfold wstep, write_raft_entry in H. injection H as <-.
   exact (fold_write_inv (it0 :: tl) (mk_wal (del_range (w_ent w) (e_index (fst it0)) (last_index w)) (w_last w) (w_inv w)
                                            (w_blocks w) (w_cc w) (w_hs w) (w_snap w) (w_id w)) h).
